@@ -157,6 +157,9 @@ class CustomRange(G.RangeEdge):
     pass
 
 
+_bg = [0]
+
+
 def build_graph(case, idmap=None, shift=None, negq=(), info_scale=1.0, split=None, edge_order=None):
     """Real Graph for a lattice graph case (fresh objects).
 
@@ -168,9 +171,12 @@ def build_graph(case, idmap=None, shift=None, negq=(), info_scale=1.0, split=Non
     idmap = idmap or (lambda j: j)
     sh = shift or (lambda what, j: 0)
     vs = []
+    _bg[0] += 1
     for j, v in enumerate(case['verts']):
         p = B.pose(v['k'], v['t'], v['r'], shift=sh('v', j) if v['k'] == 'SE2' else 0, negq=(('v', j) in negq))
-        vs.append(Vertex(idmap(j), p, fixed=bool(v['fixed'])))
+        # (fixed flags are truthy values: every other graph passes ints 1 / 0, or a mix, instead of bools)
+        fx = bool(v['fixed']) if _bg[0] % 2 == 0 else (int(bool(v['fixed'])) if (_bg[0] % 4 == 1 or j % 2 == 0) else bool(v['fixed']))
+        vs.append(Vertex(idmap(j), p, fixed=fx))
     es = []
     for n, e in enumerate(case['edges']):
         ids = [idmap(x - 1) for x in e['vs']]
